@@ -17,7 +17,7 @@ import (
 
 // sync-answer attacks: name -> fields
 var hdrFields = []string{"parent", "nonce", "timestamp", "commitment"}
-var hdrShapes = []string{"drop", "swap", "dup", "extra"}
+var hdrShapes = []string{"drop", "swap", "dup", "extra", "empty-rem", "empty-zero", "rem-huge"}
 var blkFields = []string{"parent", "nonce", "timestamp", "commitment", "payout-value", "payout-addr", "extra-payout", "no-payouts", "txn-tamper", "v2txn-drop", "v2-height", "drop-v2"}
 var blkShapes = []string{"drop-last", "truncate", "extend", "extend-dup", "drop", "swap", "sibling", "error"}
 
@@ -25,7 +25,7 @@ var blkShapes = []string{"drop-last", "truncate", "extend", "extend-dup", "drop"
 // id-preserving family alters what it does not cover: the miner payouts (none, two, value, address), the v1 and v2
 // transactions (commitment field kept) and the v2 height.
 var cpFields = []string{"no-v2", "sibling", "no-payouts", "extra-payout", "payout-value", "payout-addr", "txn-tamper", "v2txn-drop", "v2-height", "state-other", "state-tamper", "missing"}
-var relayHeaderKinds = []string{"unknown-parent", "low-work", "side", "attach"}
+var relayHeaderKinds = []string{"unknown-parent", "low-work", "low-work-known-parent", "side", "attach"}
 var relayOutlineKinds = []string{"unknown-parent", "low-work", "side", "side-known", "attach-valid", "attach-bad-height", "attach-bad-time", "missing-right", "missing-wrong", "missing-fail"}
 var relayTxnKinds = []string{"unknown-basis", "empty", "invalid"}
 
@@ -177,6 +177,14 @@ func buildAttack(s Scen, t *chaingen.Tree, ts *terms, v0, h *chaingen.Node) *att
 		a.noBan = false // an invalid header only disconnects the peer (observation, DESIGN C11)
 	case "hdr-shape":
 		l.mutHeaders = func(index types.ChainIndex, hs []types.BlockHeader, rem uint64) ([]types.BlockHeader, uint64, error) {
+			switch s.Field {
+			case "empty-rem":
+				return nil, 7, nil // no headers, yet "7 remaining"
+			case "empty-zero":
+				return nil, 0, nil // no headers although the peer's chain goes on
+			case "rem-huge":
+				return hs, ^uint64(0) - 3, nil
+			}
 			if len(hs) < 2 {
 				return hs, rem, nil
 			}
@@ -416,6 +424,19 @@ func buildRelay(s Scen, t *chaingen.Tree, ts *terms, v0, h *chaingen.Node, a *at
 		case "low-work":
 			bh = types.BlockHeader{ParentID: v0.ID, Timestamp: cs.PrevTimestamps[0].Add(time.Second), Commitment: types.Hash256{9}}
 			if !lowWork(cs, &bh) {
+				a.ok = false
+				return
+			}
+			a.mustBan = true
+		case "low-work-known-parent":
+			// insufficient work on a block the victim knows but which is not its tip
+			if v0.Parent == nil {
+				a.ok = false
+				return
+			}
+			ps := v0.Parent.State
+			bh = types.BlockHeader{ParentID: v0.Parent.ID, Timestamp: ps.PrevTimestamps[0].Add(time.Second), Commitment: types.Hash256{8}}
+			if !lowWork(ps, &bh) {
 				a.ok = false
 				return
 			}
